@@ -152,7 +152,7 @@ func init() {
 }
 
 func checkC05(c *core.Ctx) {
-	c.Explainf("C05 (decided clauses). R1: every iohelp stream reader reads exactly the width of its wire type through io.ReadFull on the ErrorReader, whose Read is itself io.ReadFull on the underlying reader — chunking is absorbed in one place. R2: nothing but ErrorReader.Read, Drain and the constructor touches the underlying reader; no emitted decoder reads r.Reader other than to install/restore the limiter. R2c: the constructor stores the caller's reader itself — nothing that reads ahead (bufio) is put in between. R3: limiter typestate of every emitted message/union DecodeBebop: the limiter is installed over the saved base reader, Drain happens only while limited, every `return r.Err` happens after the base reader is restored, and none is taken between reading the length prefix and consuming the body it announces (other than for a prefix of zero). R4: struct decoders install no limiter. R5: the Make<T>(r) wrappers of records with framing always decode. R2d: Drain takes the rest of a bounded region with a read that absorbs short reads (io.Copy, io.ReadFull, or a loop), never below the limiter, and a loop in it ends exactly when a read fails. NOT decided: 'consumed == Size() of the decoded value' (false by design when deprecated/unknown fields are on the wire); readers that violate the io.Reader contract.")
+	c.Explainf("C05 (decided clauses). R1: every iohelp stream reader reads exactly the width of its wire type through io.ReadFull on the ErrorReader, whose Read is itself io.ReadFull on the underlying reader — chunking is absorbed in one place. R2: nothing but ErrorReader.Read, Drain and the constructor touches the underlying reader; no emitted decoder reads r.Reader other than to install/restore the limiter. R2c: the constructor stores the caller's reader itself — nothing that reads ahead (bufio) is put in between. R3: limiter typestate of every emitted message/union DecodeBebop: the limiter is installed over the saved base reader, Drain happens only while limited, every `return r.Err` happens after the base reader is restored, and none is taken between reading the length prefix and consuming the body it announces (other than for a prefix of zero). R4: struct decoders install no limiter. R5: the Make<T>(r) wrappers of records with framing always decode. R2e: on the syntax tree of every emitted DecodeBebop the caller's io.Reader is only handed to iohelp.NewErrorReader (or io.ReadFull/io.ReadAtLeast); a method called on it directly outside a loop is a single raw Read. R2d: Drain takes the rest of a bounded region with a read that absorbs short reads (io.Copy, io.ReadFull, or a loop), never below the limiter, and a loop in it ends exactly when a read fails. NOT decided: 'consumed == Size() of the decoded value' (false by design when deprecated/unknown fields are on the wire); readers that violate the io.Reader contract.")
 	gr := startGen(c)
 	if gr == nil {
 		return
@@ -164,6 +164,23 @@ func checkC05(c *core.Ctx) {
 	dropRules(c, "-")
 	for _, rf := range gr.ga.Recs {
 		sr := rf.M[mSR]
+		// R2e, on the syntax tree of every emitted DecodeBebop, understood by
+		// the signature reader or not: the caller's stream is only wrapped. A
+		// method called on it directly outside any loop is one raw Read, which
+		// the io.Reader contract allows to return fewer bytes than asked for
+		if sr.Emitted {
+			raw, other := rawStreamUse(sr.Decl)
+			key := mSR + " reads the caller's stream only through the wrapper " + kindName(rf.Spec.Kind)
+			switch {
+			case raw != nil:
+				c.Check("R2e", key, anchorPos(gr.p, rf.Spec.Kind, mSR), false,
+					"emitted DecodeBebop calls "+wire.Canon(raw.Fun)+" on the caller's reader itself, once: a reader that delivers the record in pieces leaves the rest of it unread and on the stream — "+rf.where(raw.Pos()))
+			case other != nil:
+				c.Undecide("C05/R2e: %s uses the caller's reader in %s, which is neither iohelp.NewErrorReader nor io.ReadFull/io.ReadAtLeast — %s", mSR, wire.Canon(other), rf.where(other.Pos()))
+			default:
+				c.Check("R2e", key, anchorPos(gr.p, rf.Spec.Kind, mSR), true, "")
+			}
+		}
 		if !sr.Present {
 			continue
 		}
@@ -504,4 +521,73 @@ func unlatchedReturns(fd *ast.FuncDecl) (bad *ast.ReturnStmt, unsure bool) {
 	}
 	walk(fd.Body.List, false)
 	return bad, unsure
+}
+
+// rawStreamUse looks at how a DecodeBebop uses its io.Reader parameter. raw is
+// a method called on it outside any for statement; other is any use that is
+// not the argument of iohelp.NewErrorReader, io.ReadFull or io.ReadAtLeast
+// (including a method call inside a loop, which may or may not be a correct
+// fill loop).
+func rawStreamUse(fd *ast.FuncDecl) (raw *ast.CallExpr, other ast.Expr) {
+	if fd.Type.Params == nil || len(fd.Type.Params.List) == 0 || len(fd.Type.Params.List[0].Names) == 0 {
+		return nil, nil
+	}
+	name := fd.Type.Params.List[0].Names[0].Name
+	isParam := func(e ast.Expr) bool {
+		id, ok := ast.Unparen(e).(*ast.Ident)
+		return ok && id.Name == name
+	}
+	var walk func(n ast.Node, inLoop bool)
+	walk = func(n ast.Node, inLoop bool) {
+		ast.Inspect(n, func(k ast.Node) bool {
+			switch x := k.(type) {
+			case *ast.ForStmt:
+				if x.Init != nil {
+					walk(x.Init, inLoop)
+				}
+				if x.Cond != nil {
+					walk(x.Cond, true)
+				}
+				if x.Post != nil {
+					walk(x.Post, true)
+				}
+				walk(x.Body, true)
+				return false
+			case *ast.RangeStmt:
+				walk(x.X, inLoop)
+				walk(x.Body, true)
+				return false
+			case *ast.CallExpr:
+				if sel, ok := ast.Unparen(x.Fun).(*ast.SelectorExpr); ok {
+					if isParam(sel.X) {
+						if !inLoop && raw == nil {
+							raw = x
+						} else if other == nil {
+							other = x
+						}
+						for _, a := range x.Args {
+							walk(a, inLoop)
+						}
+						return false
+					}
+					fn := wire.Canon(x.Fun)
+					if fn == "iohelp.NewErrorReader" || fn == "io.ReadFull" || fn == "io.ReadAtLeast" {
+						for _, a := range x.Args {
+							if !isParam(a) {
+								walk(a, inLoop)
+							}
+						}
+						return false
+					}
+				}
+			case *ast.Ident:
+				if x.Name == name && other == nil {
+					other = x
+				}
+			}
+			return true
+		})
+	}
+	walk(fd.Body, false)
+	return raw, other
 }
